@@ -5,6 +5,8 @@
 package c16
 
 import (
+	"bufio"
+	"bytes"
 	"errors"
 	"fmt"
 	"os"
@@ -13,6 +15,7 @@ import (
 	"testing"
 	"unicode/utf8"
 
+	"github.com/emersion/go-imap/v2/internal/imapwire"
 	"github.com/emersion/go-imap/v2/internal/utf7"
 	"github.com/emersion/go-imap/v2/verifh/kit/ev"
 	"github.com/emersion/go-imap/v2/verifh/kit/refutf7"
@@ -77,6 +80,70 @@ func drive(tr transform.Transformer, src []byte, srcChunk, dstCap int) (out []by
 	return out, fmt.Errorf("%w: no termination", errDriver), splits
 }
 
+// ---------------------------------------------------------------- wire entry points
+
+// wireDecodeMailbox feeds the bytes as a server literal to the wire decoder's
+// mailbox production (the way mailbox names reach the library), so that short
+// cuts in front of the UTF-7 decoder are judged too.
+func wireDecodeMailbox(in string) (string, error) {
+	src := fmt.Sprintf("{%d}\r\n%s\r\n", len(in), in)
+	dec := imapwire.NewDecoder(bufio.NewReader(strings.NewReader(src)), imapwire.ConnSideClient)
+	var name string
+	if !dec.ExpectMailbox(&name) {
+		err := dec.Err()
+		if err == nil {
+			err = errors.New("ExpectMailbox returned false")
+		}
+		return "", err
+	}
+	return name, nil
+}
+
+// wireEncodeMailbox returns the astring content that Encoder.Mailbox puts on
+// the wire for name.
+func wireEncodeMailbox(name string) (string, error) {
+	var buf bytes.Buffer
+	bw := bufio.NewWriter(&buf)
+	enc := imapwire.NewEncoder(bw, imapwire.ConnSideServer)
+	if err := enc.Mailbox(name).CRLF(); err != nil {
+		return "", err
+	}
+	dec := imapwire.NewDecoder(bufio.NewReader(bytes.NewReader(buf.Bytes())), imapwire.ConnSideClient)
+	var raw string
+	if !dec.ExpectAString(&raw) || !dec.ExpectCRLF() {
+		return "", fmt.Errorf("cannot read back %q: %v", buf.String(), dec.Err())
+	}
+	return raw, nil
+}
+
+func checkWireDecode(t fataler, in, want, why string) {
+	if strings.EqualFold(in, "INBOX") {
+		return
+	}
+	var got string
+	var err error
+	func() {
+		defer func() {
+			if r := recover(); r != nil {
+				t.Fatalf("wire decoder panicked on mailbox %+q: %v", in, r)
+			}
+		}()
+		got, err = wireDecodeMailbox(in)
+	}()
+	if why != "" {
+		if err == nil {
+			t.Fatalf("Decoder.ExpectMailbox(%+q) accepted (%+q) a form that must be rejected: %s", in, got, why)
+		}
+		return
+	}
+	if err != nil {
+		t.Fatalf("Decoder.ExpectMailbox(%+q) rejected (%v) well-formed input; reference decodes to %+q", in, err, want)
+	}
+	if got != want || !utf8.ValidString(got) {
+		t.Fatalf("Decoder.ExpectMailbox(%+q) = %+q, reference %+q", in, got, want)
+	}
+}
+
 // ---------------------------------------------------------------- checks
 
 type fataler interface {
@@ -103,6 +170,13 @@ func checkEncode(t fataler, s string, chunks [][2]int) (shifted bool, splitInsid
 	back, err := utf7.Encoding.NewDecoder().String(got)
 	if err != nil || back != s {
 		t.Fatalf("decode(encode(%+q)=%q) = %+q, %v", s, got, back, err)
+	}
+	if !strings.EqualFold(s, "INBOX") {
+		w, err := wireEncodeMailbox(s)
+		if err != nil || w != want {
+			t.Fatalf("Encoder.Mailbox(%+q) put %q on the wire (%v), reference %q", s, w, err, want)
+		}
+		checkWireDecode(t, want, s, "")
 	}
 	shifted = strings.Contains(strings.ReplaceAll(got, "&-", ""), "&")
 	for _, c := range chunks {
@@ -149,6 +223,7 @@ func checkDecode(t fataler, in string, chunks [][2]int) (accepted bool, reason s
 			t.Fatalf("decode(%+q) produced invalid UTF-8 %+q", in, got)
 		}
 	}
+	checkWireDecode(t, in, want, why)
 	for _, c := range chunks {
 		var o []byte
 		var cerr error
